@@ -17,6 +17,8 @@ import (
 	"strings"
 	"unsafe"
 
+	"0chain.net/chaincore/block"
+	"0chain.net/chaincore/node"
 	"0chain.net/chaincore/state"
 	"0chain.net/core/encryption"
 	"0chain.net/core/util/entitywrapper"
@@ -690,7 +692,7 @@ func main() {
 	rep.CaseInputs = []interface{}{}
 	rep.Rule = "for every schema of Gen/MsgpSchema.v: random values of the real Go type (ints/uints at every msgpack size-class boundary, strings of length 0/31/32/255/256/..., " +
 		"slices and maps of length 0/15/16/17, nil and non-nil pointers, nil and empty containers, every registered entitywrapper version), marshalled, unmarshalled and marshalled again; " +
-		"mutated inputs (truncation, trailing bytes, permuted/dropped/repeated/unknown keys, bin keys, replaced values) decoded; migrations v(n)->v(n+1) of every wrapper; " +
+		"node pools and magic blocks with overlapping membership decoded in sequence against a warm node registry whose entries for the same ids and keys differ in every other field, then all re-encoded; mutated inputs (truncation, trailing bytes, permuted/dropped/repeated/unknown keys, bin keys, replaced values) decoded; migrations v(n)->v(n+1) of every wrapper; " +
 		"State Encode/Decode with 0/31/32/33-byte and nil hashes and edge numbers. non-trivial = a value with at least one non-zero field whose bytes are longer than 8, or a mutated input, or a migration; distinct by bytes"
 	cf := &vh.CasesFile{Imports: []string{"Base.Corr", "Model.Msgp", "Model.StateBin", "Gen.MsgpSchema", "Corr.Msgp"}, CaseType: "mpc_case", CheckFn: "mpc_check", Shard: 45}
 	logging.InitLogging("development", "")
@@ -941,6 +943,128 @@ func main() {
 		}
 	}
 
+	// ---- node pools / magic blocks against a warm, conflicting node registry ----
+	// Stored pools with overlapping membership (map key = node id) are decoded one after the other
+	// while the process-global node registry holds, for the same ids and keys, nodes whose other
+	// fields differ; then ALL are re-encoded: every decoded value must still give its own bytes.
+	doPools := func(seed uint64) {
+		r := vh.NewRand(seed)
+		in := input{Kind: "pools", Seed: seed}
+		n := r.Range(3, 6)
+		ids := make([]string, n)
+		mkNode := func(i int, variant int) *node.Node {
+			nd := node.Provider()
+			pk := validPKs[i%len(validPKs)]
+			b, _ := hex.DecodeString(pk)
+			nd.ID = encryption.Hash(b)
+			nd.PublicKey = pk
+			nd.Type = node.NodeTypeMiner
+			nd.N2NHost = fmt.Sprintf("n2n-%d-%d", i, variant)
+			nd.Host = fmt.Sprintf("host-%d-%d", i, variant)
+			nd.Port = 7000 + i + 100*variant
+			nd.Path = fmt.Sprintf("p%d", i)
+			nd.Description = fmt.Sprintf("node %d as of %d", i, variant)
+			nd.Status = variant % 2
+			nd.InPrevMB = variant%2 == 0
+			nd.SetIndex = (i + variant) % n
+			ids[i] = nd.ID
+			return nd
+		}
+		// the registry: same ids and keys, everything else different, signature scheme set
+		for i := 0; i < n; i++ {
+			if r.Chance(4, 5) {
+				rn := mkNode(i, 7+r.Intn(3))
+				if err := rn.SetPublicKey(rn.PublicKey); err == nil {
+					node.RegisterNode(rn)
+					rep.Count("pools-registry-node-warm")
+				}
+			} else {
+				mkNode(i, 0)
+			}
+		}
+		// stored pools: overlapping, different membership
+		var members [][]int
+		all := r.Perm(n)
+		members = append(members, all)
+		members = append(members, all[1:])
+		members = append(members, all[:n-1])
+		if r.Bool() {
+			members = append(members, []int{all[0], all[n-1]})
+		}
+		type stored struct {
+			name  string
+			obj   codec
+			val   reflect.Value
+			bytes []byte
+			rend  string
+		}
+		var st []stored
+		for mi, ms := range members {
+			p := node.NewPool(node.NodeTypeMiner)
+			for _, i := range ms {
+				nd := mkNode(i, 1+mi%2)
+				p.NodesMap[nd.ID] = nd
+			}
+			// SetIndex = position in id order, as the pool computes it
+			var ks []string
+			for k := range p.NodesMap {
+				ks = append(ks, k)
+			}
+			sort.Strings(ks)
+			for idx, k := range ks {
+				p.NodesMap[k].SetIndex = idx
+			}
+			name := "node.Pool"
+			var c codec = p
+			val := reflect.ValueOf(p).Elem()
+			if mi%2 == 1 { // every other one wrapped in a magic block
+				mb := block.NewMagicBlock()
+				mb.Hash = encryption.Hash(fmt.Sprintf("mb-%d-%d", seed, mi))
+				mb.MagicBlockNumber = int64(mi + 1)
+				mb.StartingRound = int64(100 * mi)
+				mb.Miners = p
+				mb.Sharders = node.NewPool(node.NodeTypeSharder)
+				mb.T, mb.K, mb.N = 2, 3, len(ms)
+				name, c, val = "block.MagicBlock", mb, reflect.ValueOf(mb).Elem()
+			}
+			b, err := safeMarshal(c)
+			if err != nil {
+				viol("C08:marshal-fails", name+": "+err.Error(), in, 0)
+				return
+			}
+			st = append(st, stored{name, c, val, b, render(val, entries[name].Schema)})
+		}
+		// decode all, in sequence; then re-encode all
+		type decoded struct {
+			c   codec
+			val reflect.Value
+		}
+		var ds []decoded
+		for _, x := range st {
+			c2, v2 := newObj(entries[x.name])
+			if rest, err := safeUnmarshal(c2, x.bytes); err != nil || len(rest) != 0 {
+				viol("C08:unmarshal-of-own-bytes-fails", x.name+" (warm node registry): "+fmt.Sprint(err), in, len(x.bytes))
+				return
+			}
+			ds = append(ds, decoded{c2, v2})
+		}
+		for i, x := range st {
+			again := "None"
+			b2, err := safeMarshal(ds[i].c)
+			if err == nil {
+				again = vh.Some(vh.Bytes(b2))
+			}
+			if render(ds[i].val, entries[x.name].Schema) != x.rend {
+				viol("C08:decode-depends-on-process-registry", x.name+": the decoded value differs from the stored one with a warm, conflicting node registry or after later decodes", in, len(x.bytes))
+			} else if err != nil || !bytes.Equal(b2, x.bytes) {
+				viol("C08:re-encoding-differs", x.name+": bytes of the decoded value differ from the stored bytes (warm node registry / later decodes)", in, len(x.bytes))
+			}
+			rep.Count("pools-decoded-and-re-encoded")
+			rep.Case(hex.EncodeToString(x.bytes)+fmt.Sprint(seed, i), true, in)
+			addCase(fmt.Sprintf("McEnc %s %s %s %s", vh.Str(x.name), x.rend, vh.Bytes(x.bytes), again), in)
+		}
+	}
+
 	var rin input
 	if o.LoadReplay(&rin) {
 		switch rin.Kind {
@@ -955,6 +1079,9 @@ func main() {
 		case "dec":
 			b, _ := hex.DecodeString(rin.Bytes)
 			runDec(rep, entries[rin.Name], b, rin, true, addCase)
+		case "pools":
+			lean = true
+			doPools(rin.Seed)
 		case "mig":
 			doMig(rin.Name, rin.Seed, rin.PtrMode, rin.ContMode, rin.ViaUpdate)
 		case "state":
@@ -998,6 +1125,10 @@ func main() {
 				}
 			}
 		}
+	}
+	lean = true
+	for k := 0; k < o.N(6, 60); k++ {
+		doPools(rnd.U64())
 	}
 	// ---- State ----
 	for k := 0; k < o.N(40, 400); k++ {
